@@ -18,7 +18,12 @@ Inductive formula :=
 | FRef (a : operand)                      (* =A1  /  =A1:A2 *)
 | FBin (o : op) (a b : operand)           (* =A1 + B1, =A1 & "x", =A1 < 3, … *)
 | FNeg (a : operand)                      (* =-A1 *)
-| FAgg (which : nat) (a : operand).       (* 0 SUM 1 MIN 2 MAX 3 COUNT 4 AVERAGE of a range *)
+| FAgg (which : nat) (a : operand)        (* 0 SUM 1 MIN 2 MAX 3 COUNT 4 AVERAGE of a range *)
+| FAlias                                  (* the reference cell of an unbounded range (S!B:B, formula
+                                             =_REF_("S!B1:B4")): a node of range kind whose single
+                                             precedent is the bounded range node it stands for;
+                                             _evaluate_range: data = self._evaluate_range(bounded_addr) *)
+| FAggBin (which : nat) (a : operand) (o : op) (b : operand).   (* =MAX(B:B)+A3 *)
 
 Definition operand_val (vals : list pyval) (a : operand) : pyval :=
   match a with
@@ -48,6 +53,15 @@ Definition finish (v : pyval) : pyval :=
   | _ => v1
   end.
 
+Definition agg (w : nat) (arg : pyval) : res pyval :=
+  match w with
+  | 0%nat => aggregates.f_sum_ arg
+  | 1%nat => stats.f_min_ arg
+  | 2%nat => stats.f_max_ arg
+  | 3%nat => stats.f_count arg
+  | _ => stats.f_average arg
+  end.
+
 Definition sem_formula (fm : formula) (vals : list pyval) : pyval :=
   match fm with
   | FNone => VNone
@@ -64,4 +78,10 @@ Definition sem_formula (fm : formula) (vals : list pyval) : pyval :=
                      | 3%nat => stats.f_count arg
                      | _ => stats.f_average arg
                      end))
+  | FAlias => nth 0 vals VNone
+  | FAggBin w a o b =>
+      match agg w (VTuple [operand_val vals a]) with
+      | Ok x => finish (unres (fixup x o (operand_val vals b)))
+      | Raise _ => raised
+      end
   end.
